@@ -41,6 +41,7 @@ type Engine struct {
 	instIfaces map[string]*types.Named
 	verdictDecls []string
 	selfIface  types.Type
+	exemptNext bool
 	sentinelSet map[*ssa.Function]bool
 }
 
